@@ -2,6 +2,9 @@
 //! (in-process), records the request lines and the implementation's responses, and applies the
 //! property oracles directly to the implementation's outputs.
 pub mod gen;
+pub mod scenarios;
+pub mod sim;
+pub mod workload;
 
 use std::collections::{BTreeMap, HashSet};
 use std::fmt::Write as _;
